@@ -176,8 +176,36 @@ initSetIteration(SetIteration *i, PyObject *s, int useValues)
         /* Error detection on types is moved to the next() call. */
         /* This is slower, but very convenient.  */
         PyObject* list = PySequence_List(s);
+        Py_ssize_t n, k, last;
         UNLESS(list) return -1;
         if (PyList_Sort(list) == -1) {
+            Py_DECREF(list);
+            return -1;
+        }
+        /* The merge loops need strictly increasing keys:  squeeze out
+           duplicates, which are adjacent now that the list is sorted. */
+        n = PyList_GET_SIZE(list);
+        last = 0;
+        for (k = 1; k < n; k++) {
+            PyObject *item = PyList_GET_ITEM(list, k);
+            int eq = PyObject_RichCompareBool(PyList_GET_ITEM(list, last),
+                                              item, Py_EQ);
+            if (eq < 0) {
+                Py_DECREF(list);
+                return -1;
+            }
+            if (!eq) {
+                last++;
+                if (last != k) {
+                    Py_INCREF(item);
+                    if (PyList_SetItem(list, last, item) < 0) {
+                        Py_DECREF(list);
+                        return -1;
+                    }
+                }
+            }
+        }
+        if (n && PyList_SetSlice(list, last + 1, n, NULL) < 0) {
             Py_DECREF(list);
             return -1;
         }
